@@ -175,6 +175,21 @@ CLAIMED.update({
         ref="DESIGN.md 3/C12"),
 })
 
+CLAIMED.update({
+    "C03": dict(
+        text="One lemma per expression node class (28 classes) on the real _build_X / dataclass constructor / ExprX.iterate / _yield / _join / _precedence / "
+             "Expr.__str__: for children of arbitrary class and operator, str(_build_X(node)) equals the grammar template of X -- separators, brackets, operator "
+             "spelling, and parentheses exactly around the children that bind less tightly than their position requires; sub-expression flags (in_subscript, "
+             "in_joined_str / in_formatted_str) reach only the children they are meant for; operator and binding-level tables equal the language reference; "
+             "_node_map total. String annotations: get_expression's auto mode, the Literal rule of _build_subscript (by resolved path, not spelling), "
+             "_build_constant's decision, and a call-site lemma (only annotation helpers use auto mode). That the templates parse back to the source tree "
+             "is validated against ast.parse on a catalogue of expressions (bounded native tier).",
+        note="Children are abstracted to (class, operator, uninterpreted rendering); arbitrary nesting follows by structural induction (paper). Quick tier: one child at a "
+             "time is arbitrary, thorough: all at once; child sequences have 0..2 elements. Fixed: C03-P1..P9 (parenthesization and 8 rendering defects); "
+             "known: C03-F1 (f-string conversion / format spec not stored).",
+        ref="DESIGN.md 3/C03"),
+})
+
 NA_REASON = {
     "C17": "relates two whole-program analyses through CPython's run-time object model; a contract for the inspector would have to assume the very "
            "object model the property compares against, so no obligation over /repo code alone implies agreement (DESIGN.md section 4)",
